@@ -367,7 +367,10 @@ def run_case(case, obs):
                     else:
                         rowv.append(sum(co.get(s, 0) * S[i][t] * cmath.exp(1j * math.radians(angles[s])) for i, s in enumerate(ids)))
                 exp.append(rowv)
-            exp = np.array(exp)
+            # which rows and columns come back is the subject here; of each entry the MAGNITUDE is what the library defines (C06) -
+            # the phase reference of the complex value is a convention
+            exp = np.abs(np.array(exp))
+            got = np.abs(got)
             obs.ev("subset_queries")
             if unsorted_ti:
                 # periods listed out of order / more than once: the columns of exactly those periods, in the listed or in ascending
@@ -393,8 +396,8 @@ def run_case(case, obs):
         full = (A_ * rot[None, :]) @ Sl
         for ti in (None, sorted(set(rng.sample(range(Tl), 40)) | {Tl - 1, Tl - 2, 8191 % Tl, 8192 % Tl, 1024 % Tl})):
             for linear in (False, True):
-                got = np.asarray(net.constraint_current(Sl, time_indices=ti, linear=linear))
-                exp = (np.abs(np.abs(A_) @ Sl) if linear else full)
+                got = np.abs(np.asarray(net.constraint_current(Sl, time_indices=ti, linear=linear)))
+                exp = (np.abs(np.abs(A_) @ Sl) if linear else np.abs(full))
                 exp = exp if ti is None else exp[:, ti]
                 obs.ev("queries_over_thousands_of_periods")
                 if got.shape != exp.shape or not np.allclose(got, exp, rtol=1e-9, atol=1e-9):
